@@ -206,10 +206,9 @@ func (routes RouteList) Compile(logger *zap.Logger, matchingTimeout time.Duratio
 				}
 			}
 			// end of match
-			if lastMatchedRouteIdx == len(routes)-1 {
-				// next is called because if the last handler is terminal, it's already returned
-				return next.Handle(cx)
-			}
+			// (if the last route matched, its handlers were not terminal: nothing
+			// is indetermined below and the fallback is called without a deadline;
+			// the same holds for an empty route list, where no match has removed it)
 			var indetermined int
 			for i, s := range routesStatus {
 				if i > lastMatchedRouteIdx && s == routeNeedsMore {
